@@ -8,6 +8,7 @@ mod c13;
 mod c14;
 mod c16;
 mod c17;
+mod c18;
 mod enc;
 mod gen;
 mod hist;
@@ -34,6 +35,10 @@ fn main() {
         let line = std::panic::catch_unwind(std::panic::AssertUnwindSafe(|| match kind {
             "C16" => c16::case(&mut rng),
             "C17" => c17::case(&mut rng),
+            "C18A" => c18::arch_case(&mut rng),
+            "C18N" => c18::npz_case(&mut rng, case),
+            "H01" => hist::net_case(&mut rng, false),
+            "H01T" => hist::net_case(&mut rng, true),
             "H03" => hist::case(&mut rng, &hist::Weights { apply_func: 2, compose0: 4, compose1: 4, elim: 6, reduce: 1, arith_tree: 3, arith_aff: 1, neg: 1, faults: false, partial16: 4, max_steps: 6 }, "C03"),
             "H04" => hist::case(&mut rng, &hist::Weights { apply_func: 3, compose0: 3, compose1: 3, elim: 3, reduce: 3, arith_tree: 3, arith_aff: 2, neg: 1, faults: false, partial16: 4, max_steps: 10 }, "C04"),
             "H05" => hist::case(&mut rng, &hist::Weights { apply_func: 2, compose0: 4, compose1: 3, elim: 6, reduce: 2, arith_tree: 2, arith_aff: 1, neg: 1, faults: false, partial16: 2, max_steps: 8 }, "C05"),
